@@ -130,7 +130,10 @@ impl EventGen for Container {
             }
             // A graphics element with no content at all (`<rect ...></rect>`) is the
             // same as the empty-element form, and must be laid out like one.
-            if self.0.is_graphics_element() && (inner_text.is_some() || inner_events.is_empty()) {
+            if self.0.is_graphics_element()
+                && !self.0.is_verbatim_text()
+                && (inner_text.is_some() || inner_events.is_empty())
+            {
                 let mut el = self.0.clone();
                 if let Some(text) = &inner_text {
                     el.set_attr("text", text);
